@@ -142,20 +142,40 @@ def run(chk, repo, tier):
     for fn in repo.all_functions():
         if fn.module.name != 'plane':
             continue
-        stores = [x for x in ast.walk(fn.node) if isinstance(x, ast.Assign) and
-                  any(isinstance(t, ast.Attribute) and t.attr == '_mask' for t in x.targets)]
-        if not stores:
+        if not any(isinstance(x, (ast.Assign, ast.AugAssign, ast.AnnAssign)) and
+                   any(isinstance(t, ast.Attribute) and t.attr == '_mask'
+                       for t in (x.targets if isinstance(x, ast.Assign) else [x.target])) for x in ast.walk(fn.node)):
             continue
         n += 1
-        last = max(stores, key=lambda x: x.lineno)
-        obj = dotted([t for t in last.targets if isinstance(t, ast.Attribute)][0].value)
-        refresh = [x for x in ast.walk(fn.node) if isinstance(x, ast.Assign) and x.lineno > last.lineno and
-                   any(isinstance(t, ast.Attribute) and t.attr == '_slice' and dotted(t.value) == obj for t in x.targets)
-                   and isinstance(x.value, ast.Call) and (dotted(x.value.func) or '').endswith('_plane_slice')
-                   and x.value.args and dotted(x.value.args[0]) == f'{obj}._mask']
-        chk.ob('C03-e', 'D-pairing', fn.key, 'slice cache refreshed after the mask assignment', bool(refresh),
-               f'`{seg(fn, last)}` is not followed by `{obj}._slice = _plane_slice({obj}._mask)`' if not refresh else '',
-               fn.loc(last))
+        with chk.guard(['C03-e'], fn.key):
+            _, fpaths, _ = analyse(repo, fn)
+            ok, det, where = True, '', fn.loc()
+            n_paths = 0
+            for p in returns(fpaths) + [q for q in fpaths if q.status == 'fall']:
+                ms = [(i, e) for i, e in enumerate(p.events) if e.kind == 'write' and e.data.get('how') == 'attrstore'
+                      and e.data.get('attr') == '_mask']
+                if not ms:
+                    continue
+                n_paths += 1
+                i, last = ms[-1]
+                obj, val = last.target, last.data.get('value')
+                fresh = [e for e in p.events[i + 1:] if e.kind == 'write' and e.data.get('how') == 'attrstore'
+                         and e.data.get('attr') == '_slice' and e.target == obj]
+                good = False
+                for e in fresh[-1:]:
+                    a = e.data['value'].single_atom() if isinstance(e.data.get('value'), Poly) else None
+                    if a is not None and is_app(a, 'call:plane._plane_slice'):
+                        arg = dict((k.items[0].value, k.items[1]) for k in a[2]).get('mask')
+                        good = arg == val or arg == nf.attr(obj, '_mask') or arg == nf.attr(obj, 'mask')
+                if not good:
+                    ok = False
+                    det = (f'{fmt(obj)[:40]}._mask is stored and the path ends with ._slice = '
+                           f'{fmt(fresh[-1].data["value"])[:100] if fresh else "<not refreshed>"}')
+                    where = fn.loc(last.node)
+            if n_paths == 0:
+                raise AnalysisError(f'{fn.key}: no path storing ._mask')
+            chk.ob('C03-e', 'D-pairing', fn.key, 'slice cache refreshed after the mask assignment', ok,
+                   det or f'{n_paths} path(s): the last ._mask store is followed by ._slice = _plane_slice(that mask)', where)
     if n < 2:
         raise AnalysisError(f'only {n} functions assigning ._mask found (Plane.__init__ and Plane.rescale expected)')
 
